@@ -4,7 +4,7 @@ From SX Require Import Base.Prelude Base.Str Model.Wrap Model.Writer Model.Edit.
 Local Open Scope nat_scope.
 
 Definition entry := (item * bool)%type.
-Definition write_tagged (l : list entry) : list str := flat_map (fun p => if snd p then [] else item_lines (fst p)) l.
+Definition write_tagged (l : list entry) : list str := flat_map (fun p : entry => if snd p then [] else item_lines (fst p)) l.
 
 Definition spec_apply (l : list entry) (o : op) : list entry :=
   match o with
